@@ -189,6 +189,11 @@ def gen_plan(pid, seed, idx, profile):
             ents = [find_spec(r, ins)]
             if r.random() < 0.15:
                 ents.append(find_spec(r, r.choice(insts)))
+            elif r.random() < 0.2 and len(insts) > 1:
+                # one message asks for every instance of the node by its exact ids: the answers (and their option runs,
+                # which may overlap) share one SD message when a collection window is open
+                order = list(insts) if r.random() < 0.5 else list(reversed(insts))
+                ents = [["find", i2["svc"], i2["inst"], i2["major"], i2["minor"], 3] for i2 in order]
             ops.append({"k": "sd", "t": t, "p": r.randrange(3), "ch": ch, "e": ents})
             disturbed = True
         elif kind == "queue":
